@@ -12,6 +12,7 @@ mod cmd;
 mod rng;
 mod apply_engine;
 mod dist_engine;
+mod path_engine;
 
 use std::io::Write;
 
@@ -36,6 +37,8 @@ fn main() {
         "apply-replay" => apply_engine::replay(&mut out, &opts),
         "dist" => dist_engine::run(&mut out, seed, n, &opts),
         "dist-replay" => dist_engine::replay(&mut out, &opts),
+        "path" => path_engine::run(&mut out, seed, n, &opts),
+        "path-replay" => path_engine::replay(&mut out, &opts),
         "fuzzpair" => apply_engine::run_pairs(&mut out, seed, n, &opts),
         "fuzzpair-replay" => apply_engine::replay_pairs(&mut out, &opts),
         other => { eprintln!("unknown engine {}", other); std::process::exit(2); }
